@@ -173,7 +173,10 @@ class Engine(
 
     def transfer(self, target: Relation, payload: Any | None = None) -> Select:
         # Docstring inherited.
-        return Select.apply_skip(super().transfer(target, payload))
+        # The base class returns an existing relation instead of a new
+        # Transfer when the transfer can be simplified away; conforming adds a
+        # Select only when one is not already there.
+        return self.conform(super().transfer(target, payload))
 
     def make_doomed_relation(
         self, columns: Set[ColumnTag], messages: Sequence[str], name: str = "0"
